@@ -106,8 +106,18 @@ def prelude():
 # field types
 
 class FType:
-    def __init__(self, key, ty, traits, vals, exprs):
+    def __init__(self, key, ty, traits, vals, exprs, blind=False):
         self.key, self.ty, self.traits, self.vals, self.exprs = key, ty, traits, vals, exprs
+        # std's Debug for str/String/char ignores every flag: such a placeholder cannot tell delegation from `write!`
+        self.blind = blind
+
+
+BLIND = "debug-ignores-flags"
+
+
+def usable(traits, blind):
+    """Placeholder traits under which the caller's flags are visible for this argument."""
+    return [t for t in traits if not (blind and t == "Debug")]
 
 
 # expression templates: `{f}` is the binding of the field inside the attribute (a `&T`, as documented)
@@ -115,24 +125,24 @@ FT = {t.key: t for t in [
     FType("spy", "Spy", ALL9, ["Spy(1)", "Spy(23)", "Spy(456)"],
           [("Spy({f}.0 + 1)", ALL9), ("Spy({f}.0 ^ 5)", ALL9)]),
     FType("i32", "i32", INT, ["0", "-7", "255", "i32::MIN", "1234567"],
-          [("{f}.wrapping_mul(3)", INT), ("{f}.count_ones()", INT), ("{f}.to_string()", TXT), ("f64::from(*{f})", FLT),
+          [("{f}.wrapping_mul(3)", INT), ("{f}.count_ones()", INT), ("{f}.to_string()", TXT, BLIND), ("f64::from(*{f})", FLT),
            ("(*{f} as u8)", INT), ("({f}.wrapping_add(1), 'q')", ["Debug"])]),
     FType("u8", "u8", INT, ["0", "200", "255"],
-          [("{f}.wrapping_add(9)", INT), ("char::from(*{f})", TXT)]),
+          [("{f}.wrapping_add(9)", INT), ("char::from(*{f})", TXT, BLIND)]),
     FType("f64", "f64", FLT, ["1.5", "-0.0", "1e10", "f64::NAN", "f64::INFINITY", "-2.25", "0.1234567"],
           [("{f}.abs()", FLT), ("({f} * 2.0)", FLT), ("{f}.is_nan()", TXT)]),
     FType("str", "&'static str", STR, ["S_EMPTY", "S_AB", "S_UNI", "S_NL", "S_LONG"],
-          [("{f}.len()", INT), ("{f}.trim()", STR), ("{f}.to_uppercase()", TXT)]),
+          [("{f}.len()", INT), ("{f}.trim()", STR, BLIND), ("{f}.to_uppercase()", TXT, BLIND)], blind=True),
     FType("string", "String", TXT, ["String::from(S_AB)", "String::from(S_UNI)", "String::new()", "String::from(S_LONG)"],
-          [("{f}.as_str()", TXT), ("{f}.len()", INT)]),
+          [("{f}.as_str()", TXT, BLIND), ("{f}.len()", INT)], blind=True),
     FType("char", "char", TXT, ["'a'", "'é'", "'\\n'", "'\U0001F980'"],
-          [("{f}.is_alphabetic()", TXT), ("{f}.to_ascii_uppercase()", TXT), ("(*{f} as u32)", INT)]),
+          [("{f}.is_alphabetic()", TXT), ("{f}.to_ascii_uppercase()", TXT, BLIND), ("(*{f} as u32)", INT)], blind=True),
     FType("bool", "bool", TXT, ["true", "false"], [("(!{f})", TXT)]),
     FType("refi32", "&'static i32", ALL9, ["&N1", "&N2", "&N3"],
           [("**{f}", INT), ("{f}.wrapping_add(1)", INT)]),
 ]}
-CONSTS = [("K_I32", INT), ("K_NEG", INT), ("42", INT), ("K_F64", FLT), ("K_SPY", ALL9), ("Spy(9)", ALL9), ("K_STR", TXT),
-          ("\"lit\"", TXT), ("K_CHAR", TXT), ("&N1", ALL9), ("S_UNI", STR), ("2.5", FLT), ("true", TXT)]
+CONSTS = [("K_I32", INT), ("K_NEG", INT), ("42", INT), ("K_F64", FLT), ("K_SPY", ALL9), ("Spy(9)", ALL9), ("K_STR", TXT, BLIND),
+          ("\"lit\"", TXT, BLIND), ("K_CHAR", TXT, BLIND), ("&N1", ALL9), ("S_UNI", STR, BLIND), ("2.5", FLT), ("true", TXT)]
 
 
 def types_with(trait):
@@ -194,21 +204,23 @@ def fields_for(rng, tykey, arity, named):
 
 
 def make_arg(rng, form, tykey, fname, member):
-    """-> (attribute text, reference text, traits the argument's type implements)"""
+    """-> (attribute text, reference text, traits of the argument's type under which flags are visible)"""
     t = FT[tykey] if tykey else None
     if form == "ident":
-        return fname, "fr", t.traits
+        return fname, "fr", usable(t.traits, t.blind)
     if form == "deref":
-        return "*" + fname, "*fr", t.traits
+        return "*" + fname, "*fr", usable(t.traits, t.blind)
     if form == "self":
-        return "self." + member, "f0", t.traits
+        return "self." + member, "f0", usable(t.traits, t.blind)
     if form == "expr":
-        tmpl, traits = rng.choice(t.exprs)
-        return tmpl.replace("{f}", fname), tmpl.replace("{f}", "fr"), traits
+        e = rng.choice(t.exprs)
+        return e[0].replace("{f}", fname), e[0].replace("{f}", "fr"), usable(e[1], len(e) > 2)
     if form == "const":
-        c, traits = rng.choice(CONSTS)
-        return c, c, traits
+        e = rng.choice(CONSTS)
+        return e[0], e[0], usable(e[1], len(e) > 2)
     if form == "fmtargs":
+        # `fmt::Arguments` ignores every flag (the documented way of suppressing transparency): such a
+        # pass-through case holds trivially, it is generated because the documentation shows it
         return "format_args!(\"{%s:?}\")" % fname, "format_args!(\"{fr:?}\")", TXT
     raise AssertionError(form)
 
@@ -236,7 +248,7 @@ def gen_placeholder_unit(rng, D, ref, argform, spec="", letter_override=None, al
     for _ in range(200):
         tykey = rng.choice(list(FT)) if needs_field else None
         if ref == "name":
-            fname_traits = FT[tykey].traits
+            fname_traits = usable(FT[tykey].traits, FT[tykey].blind)
             a_attr = a_ref = None
         else:
             pick_container(rng, u, tykey, allow_unit=(argform == "const"), generic_ok=(argform == "ident"))
@@ -269,7 +281,7 @@ def gen_placeholder_unit(rng, D, ref, argform, spec="", letter_override=None, al
             u.needs_struct = True
         if aliased or argform != "ident":
             u.generic = False   # bounds are only inferred for fields referenced directly
-    body = ph(arg_in_lit, spec, letter, ws=ws, colon=(not spec and not letter and rng.random() < 0.2))
+    body = ph(arg_in_lit, spec, letter, ws=ws, colon=(not spec and not letter and not wrap and rng.random() < 0.2))
     lit = (wrap[0] if wrap else "") + body + (wrap[1] if wrap else "")
     u.lit = lit
     u.attr = ", ".join([rs_str(lit)] + args)
@@ -302,7 +314,7 @@ def gen_inert_misc(rng, D, what):
     tykey = rng.choice(list(FT))
     pick_container(rng, u, tykey)
     f = u.fields[u.target]
-    P = rng.choice(FT[tykey].traits)
+    P = rng.choice(usable(FT[tykey].traits, FT[tykey].blind))
     L = LET[P]
     bare = ph(f[0], "", L)
     if what == "notext":
@@ -338,7 +350,8 @@ def gen_obs_outer_binding(rng, D):
     """`{CONST}`: a name that is neither an argument nor a field - the property text does not class it;
     the behaviour is recorded, not judged."""
     u = Unit()
-    c, traits = rng.choice([c for c in CONSTS if re.match(r"^[A-Z][A-Z_0-9]*$", c[0])])
+    e = rng.choice([c for c in CONSTS if re.match(r"^[A-Z][A-Z_0-9]*$", c[0])])
+    c, traits = e[0], usable(e[1], len(e) > 2)
     u.kind = "unit"
     P = rng.choice(traits)
     u.lit = ph(c, "", LET[P])
@@ -511,15 +524,9 @@ def probe_code(rng, D, u, j, path, nspecs, is_struct):
                 want = "%s(&(%s), i)" % (rD, ref)
             else:
                 want = "%s(&(%s), i)" % (RFN[LET[u.P]], ref)
-            if u.mode == "pt":
+            if u.mode in ("pt", "ptrident"):
                 out.append("    for &i in %s.iter() { cmp(&format!(\"u%d|pt|{}\", spec(i)), &%s(&v, i), &%s); }" % (arr, j, rD, want))
                 nev += len(idx)
-            elif u.mode == "ptrident":
-                m = u.fields[u.target][1]
-                alt = "%s(&(v.%s), i)" % (RFN["p"], m) if outer not in ("x?", "X?") else "%s(&ViaDbg(&|f| sfmt::Pointer::fmt(&(v.%s), f)), i)" % (rD, m)
-                out.append("    for &i in %s.iter() { let g = %s(&v, i); cmp(&format!(\"u%d|pt|{}\", spec(i)), &g, &%s); cmp(&format!(\"u%d|alt|{}\", spec(i)), &g, &%s); }" % (
-                    arr, rD, j, want, j, alt))
-                nev += 2 * len(idx)
             else:
                 out.append("    let plain = %s(&v, 0);" % RFN[LET[D]])
                 out.append("    for &i in %s.iter() { let g = %s(&v, i); cmp(&format!(\"u%d|o1|{}\", spec(i)), &g, &%s); cmp(&format!(\"u%d|o2|{}\", spec(i)), &g, &plain); }" % (
@@ -614,13 +621,13 @@ def classify_mismatch(c, u, ev):
     form = re.sub(r"/aliased|\+ws", "", u.form)
     if u.mode in ("pt", "ptrident"):
         return "passthrough:%s:%s" % ("Debug" if D == "Debug" else "DisplayLike", form)
-    return "not-inert:%s:%s" % ("Debug" if D == "Debug" else "DisplayLike", form)
+    return "not-inert:%s:%s" % ("Debug" if D == "Debug" else "DisplayLike", form.split("/")[0])
 
 
 def run(ctx):
     rng = ctx.rng
-    nspecs = ctx.pick(20, 40)
-    rounds = ctx.pick(1, 12)
+    nspecs = ctx.pick(24, 40)
+    rounds = ctx.pick(4, 40)
     cases, mf_cases, opt_cases = [], [], []
     k = 0
     for r in range(rounds):
@@ -700,14 +707,13 @@ def run(ctx):
             ctx.bump("obs_compiled_although_write_rejects:" + units[0].form)
         ctx.count(len(units))
         for u in units:
-            ctx.cls((c.meta["derive"], u.mode, u.form, u.P or "-", u.kind, u.fields[u.target][2] if u.target is not None else "-"))
+            ctx.cls((c.meta["derive"], u.mode, re.sub(r"/aliased|\+ws", "", u.form), u.P or "-"))
         if c.id in r.not_run:
             ctx.bump("cases_not_run")
             continue
         evs = r.events.get(c.id, [])
         n = 0
         dead = False
-        alt_ok = {}
         obs = {}
         mism = []
         for e in evs:
@@ -722,9 +728,7 @@ def run(ctx):
                 except (ValueError, IndexError):
                     raise Inconclusive("unexpected event kind %r in case %s" % (kind, c.id))
                 same = e["got"] == e["want"]
-                if mode == "alt":
-                    alt_ok[(j, spec)] = same
-                elif mode in ("o1", "o2"):
+                if mode in ("o1", "o2"):
                     obs.setdefault(j, {}).setdefault(mode, []).append(same)
                 elif not same:
                     mism.append((j, u, spec, e))
@@ -734,11 +738,6 @@ def run(ctx):
                             case=c.meta, items=c.items, body=c.body, event=e)
         for j, u, spec, e in mism:
             key = classify_mismatch(c, u, e)
-            if u.mode == "ptrident" and alt_ok.get((j, spec)):
-                # precise predicate of the recorded defect: Pointer placeholder, argument is the bare field
-                # binding, and what was printed is exactly the field's own value formatted under Pointer
-                # with the caller's spec (instead of the address of the field the binding refers to)
-                key = "known:pointer-field-binding-deref"
             d = unit_desc(c.meta["derive"], u)
             if u.mode in ("pt", "ptrident"):
                 what = ("%s with outer spec `{:%s}`: through the derive %r, the argument formatted directly %r  (expected pass-through: %s)" % (
